@@ -55,12 +55,28 @@ pub fn random_mesh_mat(rng: &mut Rng) -> Matrix4<f32> {
     if rng.chance(0.35) {
         return Matrix4::identity();
     }
-    let axis = nalgebra::Unit::new_normalize(nalgebra::Vector3::new(
-        rng.uniform(-1.0, 1.0) as f32,
-        rng.uniform(-1.0, 1.0) as f32,
-        rng.uniform(-1.0, 1.0) as f32 + 1e-3,
-    ));
-    let rot = nalgebra::Rotation3::from_axis_angle(&axis, rng.uniform(-3.1, 3.1) as f32);
+    // a skew axis, or (30%) exactly one of the coordinate axes - then with a
+    // random angle or an exact quarter/half turn: matrices with a structure
+    // (zeros, antisymmetric off-diagonal pairs) between "axis-aligned" and
+    // "general"
+    let principal = rng.chance(0.3);
+    let axis = if principal {
+        let mut a = nalgebra::Vector3::zeros();
+        a[rng.below(3)] = if rng.chance(0.5) { 1.0 } else { -1.0 };
+        nalgebra::Unit::new_normalize(a)
+    } else {
+        nalgebra::Unit::new_normalize(nalgebra::Vector3::new(
+            rng.uniform(-1.0, 1.0) as f32,
+            rng.uniform(-1.0, 1.0) as f32,
+            rng.uniform(-1.0, 1.0) as f32 + 1e-3,
+        ))
+    };
+    let angle = if principal && rng.chance(0.4) {
+        *rng.pick(&[std::f32::consts::FRAC_PI_2, -std::f32::consts::FRAC_PI_2, std::f32::consts::PI, std::f32::consts::FRAC_PI_4])
+    } else {
+        rng.uniform(-3.1, 3.1) as f32
+    };
+    let rot = nalgebra::Rotation3::from_axis_angle(&axis, angle);
     // world cube [-1,1] -> model: scale >= 1 keeps the (model-space) shape
     // further inside the world region
     let s = rng.uniform(1.0, 1.3) as f32;
